@@ -1438,6 +1438,8 @@ class Interp:
                 return ("ctor", name, name)
             if self.mod.structs.get(name) == "unit":
                 return ("variant", name, name, [])
+            if (None, name) in getattr(self, "externs", {}):
+                return ("extern", self.externs[(None, name)])
             raise SiteError(f"`{name}` is neither a local variable nor a constant, function or tuple struct of {self.mod.rel}", ln)
         ty, name = segs[-2], segs[-1]
         if ty == "Self":
@@ -1465,6 +1467,8 @@ class Interp:
             return ("ctor", None, name)
         if (ty, name) in BUILTIN_FNS:
             return ("builtin", ty, name)
+        if (ty, name) in getattr(self, "externs", {}):
+            return ("extern", self.externs[(ty, name)])
         raise SiteError(f"`{ty}::{name}` is not an enum variant, associated constant or function of {self.mod.rel}, "
                         f"nor a std item this translator knows", ln)
 
@@ -1491,9 +1495,13 @@ class Interp:
             return ("variant", f[1], f[2], args)
         if f[0] == "builtin":
             return BUILTIN_FNS[(f[1], f[2])](self, args, ln)
+        if f[0] == "extern":
+            return f[1](args, ln)
         raise SiteError(f"`{'::'.join(callee[2])}` is not callable", ln)
 
     def field(self, v, name, ln):
+        if v[0] == "parser" and name == "position":
+            return ("int", v[1]["pos"], "usize")
         if v[0] == "struct" and name in v[2]:
             return v[2][name]
         if v[0] in ("variant",) and isinstance(name, int) and name < len(v[3]):
@@ -1510,6 +1518,8 @@ class Interp:
         return None
 
     def method(self, recv, name, args, st, ln):
+        if recv[0] == "parser":
+            return parser_stub_method(recv[1], name, args, ln)
         ty = self.type_name(recv)
         if ty is not None and (ty, name) in self.mod.impl_fns:
             return self.call(self.mod.find_fn(name, ty), [recv] + args, ty)
@@ -2250,6 +2260,219 @@ def site_escape_table(mods):
             break
     return out, ln, "fn SmallString::parse_in, the two-character escapes"
 
+
+# ----------------------------------------------------------------------------- leaf parsers, executed
+# The leaf parsers (null.rs, boolean.rs, parse_hex4, array.rs) are straight-line matches over what the `Parser`
+# hands out.  They are RUN by the interpreter on short inputs against a stub of `Parser` with the semantics of
+# src/parse/mod.rs (one-character look-ahead that does not move the position; `begin_fragment` reserves an entry
+# (position, position, 0) and returns its index; `end_fragment(i)` closes entry i at the current position with
+# volume = entries - i; `skip_whitespaces` skips space, tab, LF, CR) -- the same primitives Model/Parser.v gives its
+# leaf functions.  Every character is declared one byte long; the code map starts with one open entry (index 0).
+WS_CHARS = (0x20, 0x09, 0x0A, 0x0D)
+STREAM_ERR = 0x110000       # an item of an input word standing for a failing source item (`Err(e)` of the iterator)
+
+
+def parser_stub(word):
+    return ("parser", {"rest": list(word), "pos": 0, "cm": [[0, 0, 0]]})
+
+
+def _ok(v):
+    return ("variant", None, "Ok", [v])
+
+
+def _some_char(c):
+    return ("variant", None, "None", []) if c is None else ("variant", None, "Some", [("char", c)])
+
+
+def parser_stub_method(p, name, args, ln):
+    if name == "begin_fragment" and not args:
+        p["cm"].append([p["pos"], p["pos"], 0])
+        return ("int", len(p["cm"]) - 1, "usize")
+    if name == "end_fragment" and len(args) == 1 and args[0][0] == "int":
+        i = args[0][1]
+        if not 0 <= i < len(p["cm"]):
+            raise EvalPanic("end_fragment: no such code-map entry (`unwrap` on None)")
+        p["cm"][i][1] = max(p["cm"][i][0], p["pos"])
+        p["cm"][i][2] = len(p["cm"]) - i
+        return UNIT
+    if name in ("peek_char", "next_char", "skip_whitespaces") and not args:
+        # a failing source item is reported as Error::Stream(position) by whichever method pulls it
+        k = 0
+        if name == "skip_whitespaces":
+            while k < len(p["rest"]) and p["rest"][k] in WS_CHARS:
+                k += 1
+        if k < len(p["rest"]) and p["rest"][k] == STREAM_ERR:
+            if name == "skip_whitespaces":
+                del p["rest"][:k]
+                p["pos"] += k
+            return ("variant", None, "Err", [("variant", "Error", "Stream", [("int", p["pos"], "usize")])])
+    if name == "peek_char" and not args:
+        return _ok(_some_char(p["rest"][0] if p["rest"] else None))
+    if name == "next_char" and not args:
+        pos = p["pos"]
+        c = None
+        if p["rest"]:
+            c = p["rest"].pop(0)
+            p["pos"] += 1
+        return _ok(("tuple", [("int", pos, "usize"), _some_char(c)]))
+    if name == "skip_whitespaces" and not args:
+        while p["rest"] and p["rest"][0] in WS_CHARS:
+            p["rest"].pop(0)
+            p["pos"] += 1
+        return _ok(UNIT)
+    raise SiteError(f"`parser.{name}(..)` is not one of the Parser methods this translator's stub provides "
+                    f"(begin_fragment, end_fragment, peek_char, next_char, skip_whitespaces, .position)", ln)
+
+
+def _leaf_run(mod, fn, word, payload, extra_args=(), self_type=None):
+    """runs a leaf parser on `word`; -> the outcome as a list of numbers:
+    Ok: [0, payload, meta index, position] + code map flattened;  Err(Unexpected(p, c)): [1, p, c + 1 | 0];
+    Err(Stream(p)): [5, p]"""
+    it = Interp(mod)
+    it.externs = {
+        ("Error", "unexpected"): lambda args, ln: ("variant", "Error", "Unexpected", list(args)),
+        (None, "Meta"): lambda args, ln: ("variant", "Meta", "Meta", list(args)),
+    }
+    stub = parser_stub(word)
+    try:
+        v = it.call(fn, [stub] + list(extra_args), self_type)
+    except _Return as r:
+        v = r.v if hasattr(r, "v") else r.args[0]
+    except EvalPanic as e:
+        raise SiteError(f"`{fn.where()}` panics on the input {[hex(c) for c in word]}: {e}", fn.line)
+    if v[0] != "variant" or v[2] not in ("Ok", "Err"):
+        raise SiteError(f"`{fn.where()}` yields {show_val(v)}, expected a Result", fn.line)
+    x = v[3][0]
+    if v[2] == "Err":
+        if x[0] == "variant" and x[2] == "Stream" and len(x[3]) == 1 and x[3][0][0] == "int":
+            return [5, x[3][0][1]]
+        if not (x[0] == "variant" and x[2] == "Unexpected" and len(x[3]) == 2 and x[3][0][0] == "int"):
+            raise SiteError(f"`{fn.where()}` fails with {show_val(x)}, expected Error::unexpected(position, character)", fn.line)
+        c = x[3][1]
+        if c[0] == "variant" and c[2] == "None":
+            cc = 0
+        elif c[0] == "variant" and c[2] == "Some" and c[3][0][0] == "char":
+            cc = c[3][0][1] + 1
+        else:
+            raise SiteError(f"the character of an `unexpected` error is {show_val(c)}", fn.line)
+        return [1, x[3][0][1], cc]
+    idx = 0
+    if x[0] == "variant" and x[2] == "Meta":
+        if len(x[3]) != 2 or x[3][1][0] != "int":
+            raise SiteError(f"`{fn.where()}` returns {show_val(x)}, expected Meta(value, index)", fn.line)
+        idx = x[3][1][1]
+        x = x[3][0]
+    return [0, payload(x), idx, stub[1]["pos"]] + [n for e in stub[1]["cm"] for n in e]
+
+
+def _words(alphabet, n):
+    out = [[]]
+    level = [[]]
+    for _ in range(n):
+        level = [w + [c] for w in level for c in alphabet]
+        out += level
+    return out
+
+
+def _near(word, alphabet):
+    """every prefix of `word`, alone and followed by one character of `alphabet`; the word followed by one more"""
+    out = []
+    for k in range(len(word) + 1):
+        out.append(word[:k])
+        for c in alphabet:
+            if k == len(word) or c != word[k]:
+                out.append(word[:k] + [c])
+    return out
+
+
+def _o(s):
+    return [ord(c) for c in s]
+
+
+def _failing(words, maxlen):
+    """the words, and each word of at most maxlen items with a failing source item appended, appended after one more
+    character, and put in place of each of its items"""
+    out = list(words)
+    for w in words:
+        if len(w) <= maxlen:
+            out.append(w + [STREAM_ERR])
+            out.append(w + [0x78, STREAM_ERR])
+            for k in range(len(w)):
+                out.append(w[:k] + [STREAM_ERR] + w[k + 1:])
+    return out
+
+
+LEAF_NULL_WORDS = _failing(_near(_o("null"), _o("nulxt \n")), 4)
+LEAF_BOOL_WORDS = _failing(_near(_o("true"), _o("truefalsx ")) + _near(_o("false"), _o("truefalsx ")), 5)
+_HEXISH = [0x2F, 0x30, 0x39, 0x3A, 0x40, 0x41, 0x46, 0x47, 0x60, 0x61, 0x66, 0x67, 0x20, 0x2B, 0x2D, 0x5F, 0x78, 0xE9, 0x663, 0xFF10, 0x22]
+LEAF_HEX4_WORDS = ([w for base in ("1aF9", "0000", "ffff", "D83d", "dC00") for k in range(4) for w in
+                    [_o(base)[:k] + [c] + _o(base)[k + 1:] for c in _HEXISH]]
+                   + [_o(b) for b in ("", "1", "1a", "1aF", "1aF9", "1aF9x", "FFFF0", "0020", "d800", "DFFF")])
+LEAF_HEX4_WORDS = LEAF_HEX4_WORDS + [w[:k] + [STREAM_ERR] + w[k + 1:] for w in (_o("1aF9"), _o("1xF9"), _o("g000")) for k in range(4)] + [
+    _o("1aF") + [STREAM_ERR], _o("1aF9") + [STREAM_ERR]]
+LEAF_ARRAY_START_WORDS = _words(_o("[] \n1,x") + [STREAM_ERR], 3) + [_o("[ \t\r\n]"), _o("[ \t\r\n1"), _o("[  "), _o("[  ") + [STREAM_ERR]]
+LEAF_ARRAY_CONT_WORDS = _words(_o(",] \tx[") + [STREAM_ERR], 3) + [_o(" \t\r\n,"), _o(" \t\r\n]1"), _o("   "), _o("   ") + [STREAM_ERR]]
+
+
+def _payload_unit(x):
+    if x != UNIT and x[0] != "unit":
+        raise SiteError(f"the null parser returns {show_val(x)}")
+    return 0
+
+
+def _payload_bool(x):
+    if x[0] != "bool":
+        raise SiteError(f"the boolean parser returns {show_val(x)}")
+    return 1 if x[1] else 0
+
+
+def _payload_int(x):
+    if x[0] != "int":
+        raise SiteError(f"parse_hex4 returns {show_val(x)}")
+    return x[1]
+
+
+def _payload_variant(names):
+    def f(x):
+        if x[0] != "variant" or x[2] not in names:
+            raise SiteError(f"expected one of {names}, got {show_val(x)}")
+        return names[x[2]]
+    return f
+
+
+def site_leaf(kind):
+    def f(mods):
+        ctx = ("variant", "Context", "None", [])
+        if kind == "null":
+            mod = mods("src/parse/null.rs")
+            c = [fn for (t, name), fs in mod.impl_fns.items() if name == "parse_in" for fn in fs]
+            if len(c) != 1:
+                raise SiteError(f"expected one `fn parse_in` in src/parse/null.rs, found {len(c)}")
+            fn, words, pay, extra, st = c[0], LEAF_NULL_WORDS, _payload_unit, [ctx], None
+        elif kind == "bool":
+            mod = mods("src/parse/boolean.rs")
+            fn, words, pay, extra, st = _impl_parse_in(mod, "bool"), LEAF_BOOL_WORDS, _payload_bool, [ctx], None
+        elif kind == "hex4":
+            mod = mods("src/parse/string.rs")
+            fn, words, pay, extra, st = mod.find_fn("parse_hex4"), LEAF_HEX4_WORDS, _payload_int, [], None
+        elif kind == "array_start":
+            mod = mods("src/parse/array.rs")
+            fn = _impl_parse_in(mod, "StartFragment")
+            words, pay, extra, st = LEAF_ARRAY_START_WORDS, _payload_variant({"Empty": 1, "NonEmpty": 0}), [ctx], "StartFragment"
+        else:
+            mod = mods("src/parse/array.rs")
+            fn = _impl_parse_in(mod, "ContinueFragment")
+            words, pay, extra, st = LEAF_ARRAY_CONT_WORDS, _payload_variant({"Item": 1, "End": 0}), [("int", 0, "usize")], "ContinueFragment"
+        out = []
+        seen = set()
+        for w in words:
+            if tuple(w) in seen:
+                continue
+            seen.add(tuple(w))
+            out.append((w, _leaf_run(mod, fn, w, pay, extra, st)))
+        return out, fn.line, f"fn {fn.where()}, executed on {len(out)} inputs against the Parser stub"
+    return f
+
 def cval_of(v, line):
     k = v[0]
     if k == "int":
@@ -2525,6 +2748,15 @@ def _sites():
         ty="list (N * N)", coq=lambda v: c_list([f"({a}, {b})" for a, b in v]),
         items=lambda v: [f"\\{s_text([a])} -> {u(b)}" for a, b in v], thm="C02_escapes_from_source",
         model="the character the parser model returns for \"\\X\" for X in char_domain")
+    for _kind, _file in (("null", "src/parse/null.rs"), ("bool", "src/parse/boolean.rs"), ("hex4", "src/parse/string.rs"),
+                         ("array_start", "src/parse/array.rs"), ("array_continue", "src/parse/array.rs")):
+        add(id=f"leaf_{_kind}", file=_file, props=["C01", "C02", "C05", "C07"], ev=site_leaf(_kind),
+            ty="list (list N * list N)", coq=lambda v: c_list([f"({c_cps(w)}, {c_cps(o)})" for w, o in v], ";\n   "),
+            items=lambda v: [" ".join("<fails>" if c == STREAM_ERR else u(c) for c in w) + " -> " + (
+                f"Ok {o[1]} @{o[2]} pos {o[3]} cm {o[4:]}" if o[0] == 0 else f"Err stream at {o[1]}" if o[0] == 5 else
+                f"Err unexpected at {o[1]} " + ("end" if o[2] == 0 else u(o[2] - 1))) for w, o in v],
+            thm="C01_leaf_parsers_from_source",
+            model="the outcome of the model's leaf function (parse_null, parse_bool, parse_hex4, array_start, array_continue) on the same inputs")
     add(id="is_control", file="src/parse/string.rs", props=parse_props, ev=site_is_control,
         ty="list (N * N)", coq=c_set, items=s_set, thm="C01_control_from_source",
         model="set_of Parser.is_control char_domain")
